@@ -115,7 +115,38 @@ def _norm(s):
     return re.sub(r"\s+", "", s)
 
 
-def read_tables(repo):
+def _debug_key(dbg):
+    """`RecordFields(IgnoreEmptyOpt)` / `Force { ignore_not_exported: false }` (Debug of a value)
+    -> the key the grammar's constructor expressions are looked up with"""
+    return _norm(dbg)
+
+
+def read_static_display(po, PO):
+    """`impl fmt::Display for PrimOp` read from the source text: variant pattern -> name"""
+    disp_body, _ = _block(po, r"impl fmt::Display for PrimOp\s*\{", PO)
+    display = {}
+    if "match self {" not in disp_body:
+        raise TranslatorError(PO + ": Display for PrimOp is not a `match self`")
+    flat = re.sub(r"\s+", " ", disp_body.split("match self {", 1)[1])
+    flat = re.sub(r"=>\s*\{\s*write!\(f, (\"[^\"]*\")\)\s*\}", r"=> write!(f, \1),", flat)
+    arms = 0
+    for m in re.finditer(r'((?:Self::)?[A-Za-z0-9_]+(?:\([^)]*\))?(?:\s*\{[^}]*\})?)\s*=>\s*([A-Za-z_][A-Za-z0-9_!:]*)\(', flat):
+        arms += 1
+    for m in re.finditer(r'((?:Self::)?[A-Za-z0-9_]+(?:\([^)]*\))?(?:\s*\{[^}]*\})?)\s*=>\s*write!\(f, "([^"]*)"\)', flat):
+        v = m.group(1).replace("Self::", "").strip()
+        display[_norm(v)] = m.group(2)
+    if len(display) < 80:
+        raise TranslatorError("%s: could only read %d Display arms" % (PO, len(display)))
+    if arms != len(display):
+        raise TranslatorError("%s: %d of the %d Display arms are not a plain `write!(f, \"name\")`" % (PO, arms - len(display), arms))
+    return display
+
+
+def read_tables(repo, dynamic_display=None):
+    """`dynamic_display`: {Debug text of a PrimOp value: its Display text}, obtained by running the
+    implementation (harness mode `primop`).  The table in the source text is read first; when it
+    cannot be read (a refactored `impl Display`) the dynamic one is used instead; when both are
+    there they must agree (otherwise the reader of the source text is wrong: fail closed)."""
     G = "parser/src/grammar.lalrpop"
     L = "parser/src/lexer.rs"
     PO = "parser/src/ast/primop.rs"
@@ -153,17 +184,25 @@ def read_tables(repo):
         return terminal[name]
 
     # ---- primop.rs: variant -> display name; positioning
-    disp_body, _ = _block(po, r"impl fmt::Display for PrimOp\s*\{", PO)
-    display = {}
-    if "match self {" not in disp_body:
-        raise TranslatorError(PO + ": Display for PrimOp is not a `match self`")
-    flat = re.sub(r"\s+", " ", disp_body.split("match self {", 1)[1])
-    flat = re.sub(r"=>\s*\{\s*write!\(f, (\"[^\"]*\")\)\s*\}", r"=> write!(f, \1),", flat)
-    for m in re.finditer(r'((?:Self::)?[A-Za-z0-9_]+(?:\([^)]*\))?(?:\s*\{[^}]*\})?)\s*=>\s*write!\(f, "([^"]*)"\)', flat):
-        v = m.group(1).replace("Self::", "").strip()
-        display[_norm(v)] = m.group(2)
-    if len(display) < 80:
-        raise TranslatorError("%s: could only read %d Display arms" % (PO, len(display)))
+    display_source = "static"
+    dyn = None
+    if dynamic_display is not None:
+        dyn = {}
+        for dbg, name in dynamic_display.items():
+            dyn[re.sub(r"\w+::", "", _debug_key(dbg))] = name
+    try:
+        display = read_static_display(po, PO)
+    except TranslatorError:
+        if dyn is None:
+            raise
+        display = None
+        display_source = "dynamic"
+    if display is not None and dyn is not None:
+        for k, name in display.items():
+            k2 = re.sub(r"\w+::", "", k)
+            hits = [n for d, n in dyn.items() if d == k2 or re.sub(r"\(.*\)$", "(_)", d) == k2 or re.sub(r"\{.*\}$", "{..}", d) == k2]
+            if hits and any(n != name for n in hits):
+                raise TranslatorError("%s: the Display arm read for %s is %r but the implementation prints %r" % (PO, k, name, sorted(set(hits))))
     pos_body, _ = _block(po, r"pub fn positioning\(&self\) -> OpPos\s*\{", PO)
     mpost = re.search(r"([^;{}]*?)=>\s*OpPos::Postfix", pos_body, flags=re.S)
     minf = re.search(r"OpPos::Postfix,\s*(.*?)=>\s*OpPos::Infix", pos_body, flags=re.S)
@@ -181,6 +220,17 @@ def read_tables(repo):
         """`PrimOp::Plus` / `PrimOp::Merge(MergeKind::Standard)` -> display name."""
         v = _norm(variant_expr)
         v = re.sub(r"^PrimOp::", "", v)
+        if display is None:
+            # the names the implementation itself prints, keyed by the Debug text of the value
+            k = re.sub(r"\w+::", "", v)
+            if k in dyn:
+                return dyn[k]
+            # a constructor pattern with a payload (`Merge(_)`): all its values must print alike
+            head = re.match(r"[A-Za-z0-9_]+", k).group(0)
+            names = sorted(set(n for d, n in dyn.items() if re.match(r"[A-Za-z0-9_]+", d).group(0) == head))
+            if len(names) == 1 and (k.endswith("(_)") or k.endswith("{..}")):
+                return names[0]
+            raise TranslatorError("%s: the implementation gives no single Display name for %s (%s): %s" % (PO, variant_expr, where, names))
         cands = [v, re.sub(r"\(.*\)$", "(_)", v), re.sub(r"\{.*\}$", "{..}", v)]
         # RecordFields(RecordOpKind::IgnoreEmptyOpt) is keyed exactly; Merge(_) by wildcard
         for c in cands:
@@ -323,7 +373,7 @@ def read_tables(repo):
     return {
         "binops": binops, "prefixops": prefixops, "max_level": max_level, "primops": primops,
         "keywords": keywords, "op_spelling": op_spelling, "infix_ops": infix_names,
-        "postfix_ops": postfix_names, "source_sha": sha,
+        "postfix_ops": postfix_names, "source_sha": sha, "display_source": display_source,
     }
 
 
